@@ -642,7 +642,7 @@ harness!(finding_f15_cast_double_to_single, 2, {
 });
 
 // strings: `$` accepts exactly strings and returns them unchanged; every numeric target rejects them
-//# harness cast_string_to_numeric tier=quick label=bounded(len<=1) props=C06,C12 fn=rusty_linter/src/core/qb_casting.rs::CastVariant::cast timeout=300
+//# harness cast_string_to_numeric tier=quick label=bounded(len<=1) props=C06,C12 fn=rusty_linter/src/core/qb_casting.rs::CastVariant::cast timeout=900
 harness!(cast_string_to_numeric, 2, {
     let k = vs::choice(4);
     let q = match k {
@@ -669,7 +669,7 @@ harness!(cast_string_to_numeric, 2, {
     std::mem::forget(r4);
 });
 
-//# harness cast_string_to_string tier=quick label=bounded(len<=1) props=C06,C12 fn=rusty_linter/src/core/qb_casting.rs::CastVariant::cast timeout=300
+//# harness cast_string_to_string tier=quick label=bounded(len<=1) props=C06,C12 fn=rusty_linter/src/core/qb_casting.rs::CastVariant::cast timeout=900
 harness!(cast_string_to_string, 2, {
     let r = Variant::VString(String::from("7")).cast(Q::DollarString);
     let same = matches!(&r, Ok(Variant::VString(s)) if s.len() == 1 && s.as_bytes()[0] == b'7');
